@@ -98,11 +98,16 @@ CLAIMED.update({
             "cumulative extracted. Symbolic series length, lifetime, steps per year. "
             "The four power-plant Calculate functions (sub/supercritical ORC, single/double flash x 7 end-uses) are "
             "under contract: net electricity = gross - pumping power at every step, the injection temperature the plant "
-            "writes back is the one the heat balance uses, annual series are the integrals of the corresponding power.",
+            "writes back is the one the heat balance uses, annual series are the integrals of the corresponding power. "
+            "SurfacePlantDistrictHeating.Calculate: per-step balance, useful heat by efficiency, annual figures with the "
+            "YEAR's utilization factor, remaining heat; calc_util_factor: for every day of every operating year geothermal "
+            "+ peaking supply = that day's demand, peaking supply >= 0, and (as a proved loop invariant) geothermal supply "
+            "<= the interpolated well output - nested loops: the 365-day loop is summarised exactly (writes at loop "
+            "variable + offset), the year loop carries the invariant.",
             TRUSTED + "Years with a single data point (code's extrapolation rule) are excluded by precondition and not "
             "decided; the availability / efficiency / reinjection-temperature correlations carry weak contracts (value "
-            "ranges only) and are not checked against anything; the district-heating plant and the SUTRA / CLGS plants "
-            "are not under contract.", "DESIGN.md section 4 C02"),
+            "ranges only) and are not checked against anything; CalculateDHDemand (the daily demand profile) and the SUTRA / "
+            "CLGS plants are not under contract; np.interp is an uninterpreted function (A3).", "DESIGN.md section 4 C02"),
     "C17": ("proof", TECH,
             "HIP_RA_X.Calculate: volumes are the porosity fractions, stored = rock + fluid, available <= stored and "
             "0 <= producible <= available (under T_res > T_rej and stated facts on the uninterpreted water properties); "
@@ -311,8 +316,8 @@ def main():
     manifest = {
         "version": 1,
         "setup_cmd": "bin/setup",
-        "hooks": {"guard": "GEOPHIRES_X_VERIF", "enable": "no hooks: contracts are sidecar files in /verif/contracts; "
-                  "the run-time monitor attaches by monkey-patching from /verif",
+        "hooks": {"guard": "GEOPHIRES_X_VERIF", "enable": "no hooks: contracts are sidecar files in /verif/contracts and "
+                  "nothing in /repo is instrumented (the guard variable is reserved and unused)",
                   "baseline_off_cmd": BASELINE, "source_commits": [], "add_only": True},
         "engines": [{"name": "pyvc", "path": "pyvc/", "serves_properties": sorted(CLAIMED),
                      "kind_free_text": "home-grown VC generator: forward symbolic execution of the real Python AST "
